@@ -44,7 +44,7 @@ func c03Directed(tier string) int64 {
 func init() {
 	core.Register(&core.Monitor{
 		ID:        "C03",
-		Technique: "reference-model monitor (integer dyadic boxes): set equality, duplicate-freeness, region containment",
+		Technique: "reference-model monitor (integer dyadic boxes): set equality, duplicate-freeness, region containment + concurrent scenarios (4-64 goroutines issuing the same judged calls at once) + hostile scheduler widths",
 		Rule: "per case: a list of 1-6 valid IDs (mixed zooms, nested/duplicated entries, f of both signs with emphasis on -1, -2^k, -2^k+-1) and target zooms within +-3 " +
 			"levels (any distance when coarser); extended and single-zoom API plus HorizontalZoom/HorizontalZoomMinMax/VerticalZoom per axis. Oracle: descendants (finer) / floor ancestor (coarser) per axis, " +
 			"union over inputs, compared as sets; len == |set|; region(result) >= region(input), equal when refining. Non-trivial = some axis of some input changes zoom; distinct by (list, targets).",
